@@ -9,7 +9,7 @@ from vf.sim.drive import SCase, run_async
 
 PROP_ID = 'C33'
 LEVEL = 'exploration'
-BUDGET = {'quick': 400, 'thorough': 8000}
+BUDGET = {'quick': 256, 'thorough': 8000}
 MANIFEST = {
     'engine': 'S',
     'technique': 'PBT on the stepped scheduler: xtrigger function calls '
